@@ -4,6 +4,8 @@ import (
 	"bytes"
 	"fmt"
 	"io"
+	"os"
+	"path/filepath"
 	"strconv"
 	"strings"
 
@@ -146,6 +148,7 @@ func runC10Write(c Case, m *Model, v *Verdict) {
 		return
 	}
 	n := full.Len()
+	c10WriteFile(h, full.Bytes(), c.Op, v)
 	step := 1
 	if n > 300 {
 		step = n / 300
@@ -235,6 +238,62 @@ func runC10Write(c Case, m *Model, v *Verdict) {
 		}
 		if len(v.Oracle)+len(v.Mismatch) > 2 {
 			return
+		}
+	}
+}
+
+// c10DevFull: does this system have a file on which every write fails (ENOSPC)?
+var c10DevFull = func() bool {
+	f, err := os.OpenFile("/dev/full", os.O_WRONLY, 0)
+	if err != nil {
+		return false
+	}
+	defer f.Close()
+	_, err = f.Write([]byte{0})
+	return err != nil
+}()
+
+// c10WriteFile: the file-system entry point.  A good destination: nil, and the file holds exactly the bytes WriteTo
+// produces.  A destination on which every write(2) fails (a link to /dev/full) and one that cannot be created: an error.
+func c10WriteFile(h *history, want []byte, op string, v *Verdict) {
+	dir, err := os.MkdirTemp("", "verif-c10-")
+	if err != nil {
+		v.Tags = append(v.Tags, "no-temp-dir")
+		return
+	}
+	defer os.RemoveAll(dir)
+	good := filepath.Join(dir, "good.mid")
+	var e1, e2, e3 error
+	if p := try(func() { e1 = h.build().WriteFile(good) }); p != "" {
+		v.Oracle = append(v.Oracle, "panic in WriteFile: "+p)
+		return
+	}
+	got, rerr := os.ReadFile(good)
+	v.Counts["writefile-good"]++
+	if e1 != nil {
+		v.Oracle = append(v.Oracle, fmt.Sprintf("WriteFile into a fresh directory returned %v although WriteTo succeeds :: %s", e1, short(op)))
+	} else if rerr != nil || !bytes.Equal(got, want) {
+		v.Oracle = append(v.Oracle, fmt.Sprintf("WriteFile returned nil but the file holds %d bytes (read error %v), WriteTo produces %d :: %s", len(got), rerr, len(want), short(op)))
+	}
+	if p := try(func() { e2 = h.build().WriteFile(filepath.Join(dir, "missing", "x.mid")) }); p != "" {
+		v.Oracle = append(v.Oracle, "panic in WriteFile (destination cannot be created): "+p)
+		return
+	}
+	v.Counts["writefile-nocreate"]++
+	if e2 == nil {
+		v.Oracle = append(v.Oracle, "WriteFile returned nil for a destination that cannot be created :: "+short(op))
+	}
+	if c10DevFull {
+		full := filepath.Join(dir, "full.mid")
+		if os.Symlink("/dev/full", full) == nil {
+			if p := try(func() { e3 = h.build().WriteFile(full) }); p != "" {
+				v.Oracle = append(v.Oracle, "panic in WriteFile (device full): "+p)
+				return
+			}
+			v.Counts["writefile-devfull"]++
+			if e3 == nil {
+				v.Oracle = append(v.Oracle, fmt.Sprintf("every write to the destination fails (no space left on device) but WriteFile of this %d-byte file returned nil :: %s", len(want), short(op)))
+			}
 		}
 	}
 }
